@@ -58,7 +58,12 @@ func famTry() {
 		if r.Intn(5) == 0 {
 			typ = "i"
 		}
-		t, _ := g.tree(typ, 1+r.Intn(*fDepth))
+		var t *Tree
+		if i%9 == 8 {
+			t = g.spine(typ, 5+r.Intn(10))
+		} else {
+			t, _ = g.tree(typ, 1+r.Intn(*fDepth))
+		}
 		if len(t.Kids) == 0 {
 			i--
 			continue
@@ -82,7 +87,8 @@ func famTry() {
 		sort.Strings(vnames)
 		// variants: all-off, all-on, two random subsets (one under a cost map)
 		vs := []ConfOpts{{Mask: 0}, {Mask: 15}, {Mask: r.Intn(16)},
-			{Mask: 8 | r.Intn(8), Costs: costMaps[1+r.Intn(len(costMaps)-1)]}}
+			{Mask: 8 | r.Intn(8), Costs: costMaps[1+r.Intn(len(costMaps)-1)]},
+			{Mask: r.Intn(16), Events: []string{"report", "debug"}[r.Intn(2)]}}
 		for vi, o := range vs {
 			id++
 			wantProg := *fProgEvery > 0 && id%*fProgEvery == 0
